@@ -15,7 +15,9 @@ for p in sorted(glob.glob('/verif/seeded/*/meta.json')):
     for pid, ks in sorted(fire.items()):
         for k in ks:
             parts = k.split('|')
-            keys.append('%s %s (%s)' % (pid, parts[0], parts[1].split('::')[-1] if len(parts) > 1 else ''))
+            e = '%s %s (%s)' % (pid, parts[0], parts[1].split('::')[-1] if len(parts) > 1 else '')
+            if e not in keys:
+                keys.append(e)
     summ = re.sub(r'\s+', ' ', (m.get('summary') or ''))[:170]
     rows.append('| %s | %s | %s | %s | %s |' % (tag, ev.get('property', m.get('property')), summ.replace('|', '\\|'),
                                               'yes' if ev.get('confirmed') else ('no' if ev.get('confirmed') is False else '?'),
